@@ -9,7 +9,7 @@
     overrun or shortfall decoding resumes exactly at the end the violated size field declares. *)
 From Coq Require Import ZArith List String Bool Lia.
 From TV Require Import Layout.Types Base.Bytes Model.Monad Model.Constraints Model.Ints Model.Decoder Model.Message
-  Model.Pump Proofs.Closure Proofs.LowClosure Proofs.Account Proofs.OpLemmas Proofs.Tiling Proofs.PumpProofs Proofs.Safe1 Proofs.Warn1.
+  Model.Pump Proofs.Closure Proofs.LowClosure Proofs.Account Proofs.OpLemmas Proofs.Tiling Proofs.PumpProofs Proofs.Sim11 Proofs.Safe1 Proofs.Warn1.
 Import ListNotations.
 Open Scope list_scope.
 Open Scope Z_scope.
@@ -50,15 +50,19 @@ Definition wtiles {A} (m : M A) : Prop :=
     match o with
     | Ok _ => wt tr
     | Fail (EExceeded c v b) => exists pre bs, tr = pre ++ map Rd bs /\ wt pre /\ tail_of c bs
-    | More => partial tr
-    | _ => True
+    | _ => partial tr
     end.
+
+Lemma partial_nil : partial [].
+Proof. exists [], [], []. split; [reflexivity|]. split; [constructor|left; reflexivity]. Qed.
+
+Lemma partial_pre a tr : wt a -> partial tr -> partial (a ++ tr).
+Proof. intros Ha (pre & mid & bs & -> & Hp & Hmid). exists (a ++ pre), mid, bs. rewrite app_assoc. split; [reflexivity|]. split; [apply wt_app; assumption|exact Hmid]. Qed.
 
 Lemma wti_quiet A (m : M A) : (forall s tr s' o, m s = (tr, s', o) -> tr = [] /\ o <> More /\ forall c v b, o <> Fail (EExceeded c v b)) -> wtiles m.
 Proof.
-  intros Hm s tr s' o H. destruct (Hm _ _ _ _ H) as (-> & Hn & Hx). destruct o as [a|e| |k|]; try exact Logic.I; try constructor.
-  - destruct e; try exact Logic.I. exfalso. eapply Hx. reflexivity.
-  - contradiction.
+  intros Hm s tr s' o H. destruct (Hm _ _ _ _ H) as (-> & Hn & Hx). destruct o as [a|e| |k|]; try apply partial_nil; [constructor|].
+  destruct e; try apply partial_nil. exfalso. eapply Hx. reflexivity.
 Qed.
 
 Lemma wti_bind A B (m : M A) (f : A -> M B) : wtiles m -> (forall a, wtiles (f a)) -> wtiles (bind m f).
@@ -66,14 +70,13 @@ Proof.
   intros Hm Hf s tr s' o H. destruct (bind_inv' _ _ _ _ _ _ _ _ H) as (tr1 & s1 & o1 & E1 & R). pose proof (Hm _ _ _ _ E1) as H1.
   destruct o1 as [a|e| |k|].
   - destruct R as (tr2 & E2 & ->). pose proof (Hf a _ _ _ _ E2) as H2.
-    destruct o as [b|e| |k|]; try exact Logic.I.
+    destruct o as [b|e| |k|]; try (apply partial_pre; assumption).
     + apply wt_app; assumption.
-    + destruct e; try exact Logic.I. destruct H2 as (pre & bs & -> & Hp & Ht). exists (tr1 ++ pre), bs. rewrite app_assoc. split; [reflexivity|]. split; [apply wt_app; assumption|exact Ht].
-    + destruct H2 as (pre & mid & bs & -> & Hp & Hmid). exists (tr1 ++ pre), mid, bs. rewrite app_assoc. split; [reflexivity|]. split; [apply wt_app; assumption|exact Hmid].
+    + destruct e; try (apply partial_pre; assumption). destruct H2 as (pre & bs & -> & Hp & Ht). exists (tr1 ++ pre), bs. rewrite app_assoc. split; [reflexivity|]. split; [apply wt_app; assumption|exact Ht].
   - destruct R as (-> & -> & ->). exact H1.
   - destruct R as (-> & -> & ->). exact H1.
-  - destruct R as (-> & _). exact Logic.I.
-  - destruct R as (-> & _). exact Logic.I.
+  - destruct R as (-> & -> & ->). exact H1.
+  - destruct R as (-> & -> & ->). exact H1.
 Qed.
 
 Lemma wti_dec_prim abort p pa : wtiles (dec_prim abort p pa).
@@ -86,7 +89,7 @@ Proof.
     destruct (readn_w _ _ _ _ _ E3) as (_ & _ & _ & [(bs & -> & -> & Lb)| ->]).
     + destruct R3 as (tr4 & E4 & ->). cbv zeta in E4. destruct (valid p _).
       * unfold bind, emit, ret in E4. injection E4 as <- _ <-. apply w_prim; [exact Lb|constructor].
-      * destruct abort; [unfold fail in E4; injection E4 as _ _ <-; exact Logic.I|].
+      * destruct abort; [unfold fail in E4; injection E4 as <- _ <-; exists [], [], bs; rewrite app_nil_r; split; [reflexivity|split; [constructor|left; reflexivity]]|].
         unfold bind, emit, ret in E4. injection E4 as <- _ <-. apply w_prim; [exact Lb|]. apply w_note; [exact Logic.I|constructor].
     + destruct R3 as (-> & _ & ->). destruct (readn_w _ _ _ _ _ E3) as (_ & _ & Hi & _).
       (* the bytes read so far *)
@@ -129,23 +132,23 @@ Qed.
 
 Lemma wti_set_constraint abort i p n : wtiles (set_constraint abort i p n).
 Proof.
-  intros s tr s' o H. unfold set_constraint in H. destruct (n <? 0); [injection H as _ _ <-; exact Logic.I|].
+  intros s tr s' o H. unfold set_constraint in H. destruct (n <? 0); [injection H as <- _ <-; apply partial_nil|].
   rewrite Sim7.bind_get in H. destruct (bind_inv' _ _ _ _ _ _ _ _ H) as (t1 & x1 & o1 & X1 & R1). unfold set_sc in X1. injection X1 as <- _ <-.
   destruct R1 as (t2 & E2 & ->). rewrite Sim7.bind_get in E2.
   destruct (anticipate _ _ _ _) as [[ci b_]|].
-  - destruct abort; [unfold fail in E2; injection E2 as _ _ <-; exact Logic.I|]. unfold emit in E2. injection E2 as <- _ <-. apply w_note; [exact Logic.I|constructor].
+  - destruct abort; [unfold fail in E2; injection E2 as <- _ <-; apply partial_nil|]. unfold emit in E2. injection E2 as <- _ <-. apply w_note; [exact Logic.I|constructor].
   - injection E2 as <- _ <-. constructor.
 Qed.
 
 Lemma wti_assert_done abort i : wtiles (assert_done abort i).
 Proof.
   intros s tr s' o H. unfold assert_done in H. rewrite Sim7.bind_get in H.
-  destruct (sc_max (get_sc _ i)) as [mx|] eqn:Hm; [|injection H as _ _ <-; exact Logic.I].
+  destruct (sc_max (get_sc _ i)) as [mx|] eqn:Hm; [|injection H as <- _ <-; apply partial_nil].
   destruct (sc_obs (get_sc _ i)); [injection H as <- _ <-; constructor|].
   destruct (bind_inv' _ _ _ _ _ _ _ _ H) as (t1 & x1 & o1 & X1 & R1). unfold set_sc in X1. injection X1 as <- _ <-. destruct R1 as (t2 & E2 & ->).
   destruct (sc_already (get_sc _ i) =? mx).
   - injection E2 as <- _ <-. constructor.
-  - destruct abort; [unfold fail in E2; injection E2 as _ _ <-; exact Logic.I|].
+  - destruct abort; [unfold fail in E2; injection E2 as <- _ <-; apply partial_nil|].
     destruct (bind_inv' _ _ _ _ _ _ _ _ E2) as (t3 & x3 & o3 & X3 & R3). unfold emit in X3. injection X3 as <- _ <-. destruct R3 as (t4 & E4 & ->).
     destruct (bind_inv' _ _ _ _ _ _ _ _ E4) as (t5 & x5 & o5 & X5 & R5).
     assert (Hq : t5 = [] /\ exists u, o5 = Ok u).
@@ -170,14 +173,14 @@ Proof.
   destruct (h s1) as [[tr2 s2] o2] eqn:E2. injection H as <- <- <-. pose proof (Hh _ _ _ _ E2) as H2.
   destruct H1 as (pre & bs & -> & Hp & Ht).
   assert (Hshape : forall rest, (pre ++ map Rd bs) ++ Wn (EExceeded c v b) :: rest = pre ++ (map Rd bs ++ Wn (EExceeded c v b) :: rest)) by (intros rest; rewrite <- app_assoc; reflexivity).
-  destruct o2 as [a|e| |k|]; try exact Logic.I.
+  assert (Hpart : partial tr2 -> partial ((pre ++ map Rd bs) ++ Wn (EExceeded c v b) :: tr2)).
+  { intros Hq. rewrite Hshape. replace (pre ++ map Rd bs ++ Wn (EExceeded c v b) :: tr2) with ((pre ++ map Rd bs ++ [Wn (EExceeded c v b)]) ++ tr2) by (rewrite <- !app_assoc; reflexivity).
+    apply partial_pre; [|exact Hq]. apply wt_app; [exact Hp|]. apply w_over; [exact Ht|constructor]. }
+  destruct o2 as [a|e| |k|]; try (apply Hpart; exact H2).
   - rewrite Hshape. apply wt_app; [exact Hp|]. apply w_over; assumption.
-  - destruct e; try exact Logic.I. destruct H2 as (pre2 & bs2 & -> & Hp2 & Ht2).
+  - destruct e; try (apply Hpart; exact H2). destruct H2 as (pre2 & bs2 & -> & Hp2 & Ht2).
     exists (pre ++ map Rd bs ++ Wn (EExceeded c v b) :: pre2), bs2. split; [rewrite Hshape, <- !app_assoc; cbn [app]; reflexivity|].
     split; [apply wt_app; [exact Hp|apply w_over; assumption]|exact Ht2].
-  - destruct H2 as (pre2 & mid & bs2 & -> & Hp2 & Hmid).
-    exists (pre ++ map Rd bs ++ Wn (EExceeded c v b) :: pre2), mid, bs2. split; [rewrite Hshape, <- !app_assoc; cbn [app]; reflexivity|].
-    split; [apply wt_app; [exact Hp|apply w_over; assumption]|exact Hmid].
 Qed.
 
 Lemma wtiles_closed abort : closed abort (@wtiles).
@@ -186,9 +189,9 @@ Proof.
   - apply wti_quiet. intros s tr s' o H. injection H as <- _ <-. repeat split; discriminate.
   - apply wti_bind; assumption.
   - apply wti_quiet. intros s tr s' o H. injection H as <- _ <-. repeat split; discriminate.
-  - intros s tr s' o H. injection H as _ _ <-. exact Logic.I.
-  - intros s tr s' o H. injection H as _ _ <-. exact Logic.I.
-  - intros s tr s' o H. injection H as _ _ <-. exact Logic.I.
+  - intros s tr s' o H. injection H as <- _ <-. apply partial_nil.
+  - intros s tr s' o H. injection H as <- _ <-. apply partial_nil.
+  - intros s tr s' o H. injection H as <- _ <-. apply partial_nil.
   - intros s tr s' o H. injection H as <- _ <-. apply w_struct. constructor.
   - apply wti_dec_prim.
   - apply wti_quiet. intros s tr s' o H. injection H as <- _ <-. repeat split; discriminate.
@@ -197,7 +200,7 @@ Proof.
   - apply wti_quiet. intros s tr s' o H. injection H as <- _ <-. repeat split; discriminate.
   - apply wti_assert_done.
   - apply wti_catch; assumption.
-  - destruct abort; [intros s tr s' o H; injection H as _ _ <-; exact Logic.I|].
+  - destruct abort; [intros s tr s' o H; injection H as <- _ <-; apply partial_nil|].
     intros s tr s' o H. injection H as <- _ <-. apply w_note; [exact Logic.I|constructor].
 Qed.
 
@@ -221,3 +224,4 @@ Proof.
   pose proof (wtiles_dec_root T abort r _ _ _ _ E) as H. destruct o as [a|e| |k|]; try exact Logic.I; [exact H|].
   split; [exact H|]. apply (L_dec_root _ more_empty_lclosed T abort r _ _ _ E).
 Qed.
+
